@@ -7,3 +7,5 @@ import OxyModel.Props.C20
 #print axioms C20.C20_response_limit
 #print axioms C20.C20_abort_restores
 #print axioms C20.C20_abort_state
+#print axioms C20.C20_failed_hijack_relayed
+#print axioms C20.C20_info_implicit_final_counterexample
